@@ -215,6 +215,20 @@ func render(s script) *rendered {
 				sb.WriteString("  sub(/a/, \"b\", " + f + ")\n")
 			case "gsuba":
 				sb.WriteString("  gsub(/a/, \"bb\", " + f + ")\n")
+			case "subempty":
+				if o.I.Kind == 'c' && float64(o.I.X) == 0 && o.I.Lit {
+					sb.WriteString("  sub(/^/, \"\")\n") // default target: $0
+				} else {
+					sb.WriteString("  sub(/^/, \"\", " + f + ")\n")
+				}
+			case "subsame":
+				sb.WriteString("  sub(/b/, \"b\", " + f + ")\n")
+			case "gsubsame":
+				if o.I.Kind == 'c' && float64(o.I.X) == 0 && o.I.Lit {
+					sb.WriteString("  gsub(/b/, \"b\")\n")
+				} else {
+					sb.WriteString("  gsub(/b/, \"b\", " + f + ")\n")
+				}
 			case "app":
 				// the index expression is evaluated twice; both evaluations are reads
 				sb.WriteString("  " + f + " = " + f + " \"x\"\n")
@@ -578,7 +592,7 @@ func main() {
 		return
 	}
 	rep := hx.NewReport("C06", o.Seed, o.Tier)
-	rep.Rule = "scripts of record operations: every script of length <= 2 (quick) / <= 3 (thorough) over a 14-op alphabet, then random scripts of 1..12 ops (after a 3-op preamble that fixes the input splitter) over: record arrival, getline var, $0 assignment, field reads/writes with indexes from {0,+-1,+-2,NF+d,-NF+d,0.5,1e6,1e6+1,2^31,2^63,-2^63,1e30,NaN}, getline $i, sub/gsub/append/++/+=/self-assignment ($i = $i, $0 = $0, via a saved copy) on a field or $0, the string-or-strnum typing probe ($i < 9 when $i is \"10\"), NF reads, NF assignments (integers, fractions, strings, negative, 1e6, 1e6+1, 2^63), NF++/NF+=d, FS from {space, single bytes, multi-byte char, empty, fixed and random regex ASTs, non-compiling}, OFS, RS (newline/empty), INPUTMODE/OUTPUTMODE; texts with blank runs, tabs, NBSP, VT, CR, newlines, invalid UTF-8, empty. 60% of random scripts avoid the input class of the known finding (non-integral NF values) and the NaN index so that everything else is checked to the end. distinct = distinct model request line; non-trivial = at least one mutating operation"
+	rep.Rule = "scripts of record operations: every script of length <= 2 (quick) / <= 3 (thorough) over a 14-op alphabet, then random scripts of 1..12 ops (after a 3-op preamble that fixes the input splitter) over: record arrival, getline var, $0 assignment, field reads/writes with indexes from {0,+-1,+-2,NF+d,-NF+d,0.5,1e6,1e6+1,2^31,2^63,-2^63,1e30,NaN}, getline $i, sub/gsub (changing the text, matching without changing it, not matching; target within / beyond NF / $0 / default target)/append/++/+=/self-assignment ($i = $i, $0 = $0, via a saved copy) on a field or $0, the string-or-strnum typing probe ($i < 9 when $i is \"10\"), NF reads, NF assignments (integers, fractions, strings, negative, 1e6, 1e6+1, 2^63), NF++/NF+=d, FS from {space, single bytes, multi-byte char, empty, fixed and random regex ASTs, non-compiling}, OFS, RS (newline/empty), INPUTMODE/OUTPUTMODE; texts with blank runs, tabs, NBSP, VT, CR, newlines, invalid UTF-8, empty. 60% of random scripts avoid the input class of the known finding (non-integral NF values) and the NaN index so that everything else is checked to the end. distinct = distinct model request line; non-trivial = at least one mutating operation"
 	r := hx.NewRand(o.Seed)
 	scripts := genScripts(o, r)
 	nFixed := len(fixedScripts())
